@@ -10,7 +10,7 @@ library behaviour.
 
 Reading of "exactly when the command line is invalid": `argv` is processed left
 to right and the first decisive token wins — `xt -h -x` prints help and exits
-0, `xt -x -h` exits 2 (`help_then_error_vs_error_then_help`).  "An argv error is reached
+0, `xt -x -h` exits 2 (`first_decisive_token`, `help_then_error_vs_error_then_help`).  "An argv error is reached
 first" is `parseArgs args = .err e`; `parseArgs_eq_ref` (Lemmas/CliArgs) shows
 that `parseArgs` — lexopt's state machine driven by the `parse_args` loop — is
 the plain left-to-right reading `refParse` of the command line.
@@ -18,7 +18,8 @@ the plain left-to-right reading `refParse` of the command line.
 Outside the model: non-UTF-8 arguments; failures of writes to standard error.
 
 Obligations: `never_panics`, `exit_code_spec`, `exit1_names_input`, `stdout_only_data`,
-`msgpack_never_to_tty`, `aliases`, `help_then_error_vs_error_then_help`, `help_write_errors_ignored`.
+`msgpack_never_to_tty`, `aliases`, `first_decisive_token`, `help_then_error_vs_error_then_help`,
+`help_write_errors_ignored`.
 -/
 namespace Xt.Props.C13
 open Xt.Cli
@@ -261,6 +262,22 @@ theorem aliases (s : Str) :
     · rw [parseArgs_eq_ref]; simp [refParse, startsWithDashDash, attachedValue, hn]
     · rw [parseArgs_eq_ref]; simp [refParse, startsWithDashDash, attachedValue, hn]
 
+/-- **The first decisive token wins**: once a prefix of the command line ends
+in a help/version request or in an argument error (other than a value still
+missing at its end), whatever follows does not matter — for all `pre`, `suf`. -/
+theorem first_decisive_token (pre suf : List Str) (h : Decisive (parseArgs pre)) :
+    parseArgs (pre ++ suf) = parseArgs pre := by
+  rw [parseArgs_eq_ref] at h ⊢
+  rw [parseArgs_eq_ref]
+  exact refParse_prefix suf _ _ _ h
+
+/-- … and so do the exit status and both streams of the whole run. -/
+theorem first_decisive_token_run (w : World) (pre suf : List Str) (h : Decisive (parseArgs pre)) :
+    run w (pre ++ suf) = run w pre := by
+  have := first_decisive_token pre suf h
+  unfold run
+  rw [this]
+
 /-- `xt -h -x` prints help and exits 0; `xt -x -h` exits 2 — for every continuation. -/
 theorem help_then_error_vs_error_then_help (w : World) (rest : List Str) :
     (run w (['-', 'h'] :: ['-', 'x'] :: rest)).exit = .code 0 ∧
@@ -314,6 +331,12 @@ example : parseArgs ["-f".toList, "j".toList, "-f".toList, "y".toList] = .err du
 example : HelpFirst ["--version=1".toList] := by
   left; rw [parseArgs_eq_ref]; decide
 
+/-- `Decisive` instances for `first_decisive_token`: `xt a.json -x …` is an error whatever follows. -/
+example : Decisive (parseArgs ["a.json".toList, "-x".toList]) := by
+  have : parseArgs ["a.json".toList, "-x".toList] = .err (.unexpectedOption ['-', 'x']) := by
+    rw [parseArgs_eq_ref]; decide
+  rw [this]; trivial
+
 /-- A world for the examples: `a.json` exists, the library writes `{}` and a newline. -/
 def exWorld (tty : Bool) : World :=
   { argv0 := "xt".toList, version := "xt 0".toList,
@@ -336,6 +359,8 @@ example : GoodFd (exWorld false).fd := fun _ _ => rfl
 #print axioms msgpack_never_to_tty
 #print axioms tty_output_not_msgpack
 #print axioms aliases
+#print axioms first_decisive_token
+#print axioms first_decisive_token_run
 #print axioms help_then_error_vs_error_then_help
 #print axioms help_write_errors_ignored
 
